@@ -3,7 +3,7 @@
    writer (State::write_to, Entry::write_to), Spec.v = git's writer (validated against git 2.39.5 byte
    for byte in C24).  [wf_entry] = what an entry holds after decoding / what git stores. *)
 From GixV.Base Require Import Bytes BytesFacts Outcome.
-From GixV.C25 Require Import Model Spec Write ProofsEntry ProofsWrite.
+From GixV.C25 Require Import Sha1 Model Spec Write ProofsEntry ProofsWrite ProofsFile.
 Local Open Scope N_scope.
 
 (* the entry block the writer produces is byte for byte git's: entries marked REMOVE are skipped,
@@ -42,6 +42,24 @@ Theorem extended_flags_are_not_lost : forall e r, length (e_words e) = 10%nat ->
     read_flags rest = Some (fl, 4, e_path e ++ [x00] ++ r) /\ (fl / 536870912) mod 4 = ext_bits e.
 Proof. exact L_extended_flags_kept. Qed.
 
+(* Whole file, simplest layout (header + entries + trailer; no tree cache, not sparse, hence no
+   extension is written): reading back what File::write_to wrote gives the version that was written and
+   exactly the entries not marked REMOVE, for EVERY thread limit, with the trailer as checksum.
+   [sha] is any function returning 20 bytes.  Premise [eoie_decode … = None]: the last 32 bytes of the
+   entry area do not happen to form a valid end-of-index-entries extension (signature "EOIE", size 24,
+   an offset and the matching hash) — the reader, like git's, looks for that extension at a fixed
+   distance from the end of every file, and for a hash function that is only a parameter this cannot be
+   excluded; [ex_file_no_extensions] shows the premise holding with the real SHA-1. *)
+Theorem write_then_read_file_no_extensions : forall sha, (forall x, length (sha x) = 20%nat) ->
+  forall st opt_tree opt_eoie threads,
+  Forall wf_entry (s_entries st) -> x_tree (s_exts st) = None -> s_sparse st = false ->
+  N.of_nat (length (live (s_entries st))) < 4294967296 ->
+  let '(v, file) := write_file sha st opt_tree opt_eoie in
+  eoie_decode sha file = None ->
+  v = required_version (s_entries st) /\
+  from_bytes sha threads file = Ok (reread st v (sha (firstn (length file - 20) file))).
+Proof. exact L_write_then_read_file_no_extensions. Qed.
+
 (* non-vacuity *)
 Definition ex_entry (fl : N) (p : bytes) : entry :=
   mkEntry [1;2;3;4;5;6;33188;7;8;4294967295] (repeat xab 20) fl p.
@@ -61,3 +79,14 @@ Example ex_long_and_removed :
   exists c', chunk_of false 2 (write_entries [a; b; c] 0 ++ bs "rest") = Ok ([a; c'], bs "rest") /\
              e_flags c' = 1073741824 + 16384 /\ e_path c' = bs "z".
 Proof. split; [reflexivity|]. eexists. split; [vm_compute; reflexivity|]. split; reflexivity. Qed.
+
+Example ex_file_no_extensions :
+  let a := ex_entry 0 (bs "a/b") in
+  let b := ex_entry 131072 (bs "gone") in
+  let c := ex_entry (16384 + 1073741824) (bs "z") in
+  let st := mkState 2 [a; b; c] false exts_default None in
+  let '(v, file) := write_file sha1 st true true in
+  v = 3 /\ eoie_decode sha1 file = None /\
+  from_bytes sha1 1 file = Ok (reread st 3 (sha1 (firstn (length file - 20) file))) /\
+  from_bytes sha1 8 file = from_bytes sha1 1 file /\ length file = (12 + 72 + 72 + 20)%nat.
+Proof. vm_compute. repeat split; reflexivity. Qed.
